@@ -58,8 +58,15 @@ func NewFileInfoFromTarHeader(
 
 	log logging.StructuredLogger,
 ) *FileInfo {
+	name := hdr.FileInfo().Name()
+	if name == "." {
+		// The root directory of an index that was rebuilt from the tape is stored under the empty name; it is called
+		// "/", like the root of the index the tape was created with
+		name = "/"
+	}
+
 	return &FileInfo{
-		name:       hdr.FileInfo().Name(),
+		name:       name,
 		size:       hdr.FileInfo().Size(),
 		mode:       hdr.FileInfo().Mode(),
 		modTime:    hdr.FileInfo().ModTime(),
